@@ -631,6 +631,65 @@ def _empty_test(c: ast.Compare) -> bool:
     return (isinstance(op, ast.Lt) and k == 1) or (isinstance(op, ast.LtE) and k == 0) or (isinstance(op, ast.Eq) and k == 0)
 
 
+def _s10_declared_from_attached_source(program, res, rule="C08-S10"):
+    """A node's declared columns are computed from a source's columns (source.column_names minus deletions, plus new names …) and the executors
+    realise most steps *relative* to the frame the attached source produces (Pandas drop_columns keeps "everything that comes in, except …").  The
+    two agree only if the node is attached to the very source its declaration was computed from: a constructor that skips over that source
+    (`source = source.sources[0]`) after reading its columns declares one thing and computes another."""
+    mod = program.module("view_representations")
+    n = 0
+    for cls in mod.classes.values():
+        ini = cls.methods.get("__init__")
+        if ini is None:
+            continue
+        base = [c for c in ast.walk(ini.node) if isinstance(c, ast.Call) and (dotted_name(c.func) or "").endswith("ViewRepresentation.__init__")]
+        if not base:
+            continue
+        call = base[0]
+        kws = {k.arg: k.value for k in call.keywords}
+        if "column_names" not in kws or "sources" not in kws:
+            continue
+        n += 1
+        res.analysed(ini)
+        src_names = {e.id for e in ast.walk(kws["sources"]) if isinstance(e, ast.Name)} & set(ini.params())
+        assigns = [st for st in ast.walk(ini.node) if isinstance(st, (ast.Assign, ast.AugAssign, ast.AnnAssign))]
+        def targets(st):
+            ts = st.targets if isinstance(st, ast.Assign) else [st.target]
+            return {n_.id for t in ts for n_ in ast.walk(t) if isinstance(n_, ast.Name)}
+        # statements whose value flows into the declared columns (closure over local names, flow-insensitive)
+        want = {n_.id for n_ in ast.walk(kws["column_names"]) if isinstance(n_, ast.Name)}
+        contributing = []
+        changed = True
+        while changed:
+            changed = False
+            for st in assigns:
+                if st not in contributing and targets(st) & want and not (targets(st) & src_names):
+                    contributing.append(st)
+                    new = {n_.id for n_ in ast.walk(st.value) if isinstance(n_, ast.Name)} if getattr(st, "value", None) is not None else set()
+                    if not new <= want:
+                        want |= new
+                        changed = True
+        readers = [(st.lineno, st) for st in contributing] + [(call.lineno, kws["column_names"])]
+        bad = None
+        for st in assigns:
+            rb = targets(st) & src_names
+            if not rb or not isinstance(st, ast.Assign):
+                continue
+            for ln, reader in readers:
+                body = reader.value if isinstance(reader, (ast.Assign, ast.AugAssign, ast.AnnAssign)) else reader
+                if ln < st.lineno and any(isinstance(x, ast.Name) and x.id in rb for x in ast.walk(body)):
+                    bad = (st, reader, sorted(rb)[0])
+        if bad:
+            st, reader, nm = bad
+            res.fail_at(rule, ini, f"declared-columns-from-skipped-source:{cls.name}",
+                        f"{cls.name} computes its declared columns from `{nm}` (`{unparse(reader)[:60]}`) and then attaches itself to another node (`{unparse(st)}`): "
+                        f"the executors that realise the step relative to the incoming frame (Pandas keeps every incoming column but the deleted ones) return the columns "
+                        f"of the node that was skipped over", st)
+        else:
+            res.ok(rule, f"{cls.name}: the declared columns are computed from the source the node is attached to")
+    res.expect_count(rule, "node constructors", n, 8)
+
+
 def run(program, res, tier):
     res.rule("C08-S1", "Pandas: every scratch column written into a returned frame is removed on every path")
     res.rule("C08-S2", "Polars: temporary columns are selected away; steps end in select(op.columns_produced())")
@@ -653,3 +712,5 @@ def run(program, res, tier):
     _s8_empty_request(program, res)
     res.rule("C08-S9", "SQL: the select terms of a join name the side they read")
     _s9_join_terms_qualified(program, res)
+    res.rule("C08-S10", "a node is attached to the source its declared columns were computed from")
+    _s10_declared_from_attached_source(program, res)
